@@ -51,7 +51,7 @@ private theorem pairListed_keyListed (cfg : Spec.Cfg) (sig key : Bytes) (h : Spe
   exact ⟨(sig, key), this, by simp⟩
 
 private theorem mock_eq {cx : Ctx} {e : SEE} {cfg : Spec.Cfg} (hc : CfgRel cx e cfg) (sig key : Bytes) :
-    (e.pretendKeys.contains key && pretendLookup e.pretendMap sig == some key) = Spec.mockHit cfg sig key := by
+    (e.pretendKeys.contains key && pretendHas e.pretendMap sig key) = Spec.mockHit cfg sig key := by
   unfold Spec.mockHit
   by_cases hk : e.pretendKeys.contains key = true
   · rw [hk, Bool.true_and]; exact hc.pretendPair sig key hk
